@@ -83,6 +83,16 @@ func (g *aspGen) withVar(v *avar, f func()) {
 	}
 }
 
+// elemAliased generates an expression that becomes an element of a new container; if it is a plain
+// container variable that variable now has another reference.
+func (g *aspGen) elemAliased(t AspType, d int) ex {
+	e := g.expr(t, d)
+	if t.container() {
+		g.markAliased(e)
+	}
+	return e
+}
+
 func (g *aspGen) comprehension(t AspType, d int) ex {
 	g.feat("list_comprehension")
 	src, et := g.iterSource(d - 1)
@@ -94,7 +104,7 @@ func (g *aspGen) comprehension(t AspType, d int) ex {
 			src2, et2 := g.iterSource(d - 1)
 			cv2 := &avar{name: g.name("c"), t: et2, aliased: true, ln: -1, nonASCII: true}
 			g.withVar(cv2, func() {
-				body = arg(g.expr(*t.E, d-1))
+				body = arg(g.elemAliased(*t.E, d-1))
 				if g.chance(50, "compif") {
 					cond = " if " + par(g.boolExpr(d-1), pOr)
 					g.feat("comprehension_filter")
@@ -103,7 +113,7 @@ func (g *aspGen) comprehension(t AspType, d int) ex {
 			second = " for " + cv2.name + " in " + par(src2, pOr)
 			return
 		}
-		body = arg(g.expr(*t.E, d-1))
+		body = arg(g.elemAliased(*t.E, d-1))
 		if g.chance(50, "compif") {
 			cond = " if " + par(g.boolExpr(d-1), pOr)
 			g.feat("comprehension_filter")
@@ -112,6 +122,7 @@ func (g *aspGen) comprehension(t AspType, d int) ex {
 	e := atom("[" + body + " for " + cv.name + " in " + par(src, pOr) + second + cond + "]")
 	e.fresh = true
 	e.nonASCII = true
+	e.fold = t.E.container() // a constant list literal in the body is evaluated once per item
 	return e
 }
 
@@ -315,13 +326,14 @@ func (g *aspGen) dictExpr(t AspType, d int) ex {
 			if g.chance(30, "keyexpr") {
 				key = par(g.bin("+", pAdd, g.varEx(cv), g.strLit()), pTernary)
 			}
-			val = arg(g.expr(et, d-1))
+			val = arg(g.elemAliased(et, d-1))
 			if g.chance(30, "dcompif") {
 				cond = " if " + par(g.boolExpr(d-1), pOr)
 			}
 		})
 		e := atom("{" + key + ": " + val + " for " + cv.name + " in " + par(src, pOr) + cond + "}")
 		e.fresh, e.nonASCII = true, true
+		e.fold = et.container()
 		return e
 	case k < 16:
 		g.feat("dict_union")
